@@ -142,6 +142,48 @@ theorem generated_model_frame (stmts : List (Assign σ C X)) (endoCell : List (I
     rw [runPass_frame S t stmts u c hstmt]; exact h
   · intro u k h; exact h
 
+/-! ### …and of a multi-period `solve()` -/
+
+/-- Anything every single-period solve of the listed periods preserves is preserved by the period loop of `solve()`,
+    whatever its outcome (completed, or stopped by the first exception). -/
+theorem solveList_inv {σ V : Type} (I : Interp σ V) (o : Opts) (n : Nat) (P : σ → Prop) :
+    ∀ (ps : List Nat), (∀ p ∈ ps, ∀ w : World σ, P w.user → P (solveT I o n (p : Int) w).1.user) →
+      ∀ (w : World σ) (acc : List Nat) (fs : List Bool), P w.user → P (solveList I o n ps w acc fs).1.user := by
+  intro ps
+  induction ps with
+  | nil => intro _ w acc fs hw; exact hw
+  | cons p rest ih =>
+    intro h w acc fs hw
+    unfold solveList
+    have hp := h p List.mem_cons_self w hw
+    rcases hs : solveT I o n (p : Int) w with ⟨w', r⟩
+    rw [hs] at hp
+    cases r with
+    | ret b => exact ih (fun q hq => h q (List.mem_cons_of_mem _ hq)) w' _ _ hp
+    | valueError => exact hp
+    | indexError => exact hp
+    | solutionError c => exact hp
+    | nonConvergence => exact hp
+    | badErrorsArg => exact hp
+
+/-- **Frame of `solve()` over a list of periods, for a generated model.**  A cell that is not the target of any of the
+    model's statements at any of the visited periods, nor (when `offset ≠ 0`) an endogenous cell of a visited period,
+    holds after `solve()` what it held before — whether the run completes or stops at the first failing period. -/
+theorem generated_solve_frame (stmts : List (Assign σ C X)) (endoCell : List (Int → C))
+    (copy : σ → Int → Int → σ) (lags leads : Nat) (check : σ → Int → V) (allFinite : V → Bool)
+    (close : V → V → Bool) (zeroNF : V → V) (ps : List Nat)
+    (hcopy : ∀ p ∈ ps, ∀ u c, (∀ e ∈ endoCell, e (p : Int) ≠ c) → S.get (copy u (p : Int) o.offset) c = S.get u c)
+    (w : World σ) (acc : List Nat) (fs : List Bool) (c : C)
+    (hstmt : ∀ p ∈ ps, ∀ a ∈ stmts, a.target (p : Int) ≠ c)
+    (hendo : o.offset ≠ 0 → ∀ p ∈ ps, ∀ e ∈ endoCell, e (p : Int) ≠ c) :
+    S.get (solveList (generated S stmts endoCell copy lags leads check allFinite close zeroNF) o n ps w acc fs).1.user c
+      = S.get w.user c := by
+  apply solveList_inv _ o n (fun u => S.get u c = S.get w.user c) ps _ w acc fs rfl
+  intro p hp w' hw'
+  rw [generated_model_frame S o n (p : Int) stmts endoCell copy lags leads check allFinite close zeroNF
+    (hcopy p hp) w' c (hstmt p hp) (fun ho => hendo ho p hp)]
+  exact hw'
+
 /-- `status` / `iterations` change at most at `t` (restated from the shared lemma). -/
 theorem series_frame (w : World σ) (j : Nat) (hj : pyIndex n t ≠ some j) :
     (solveT I o n t w).1.status[j]? = w.status[j]? ∧ (solveT I o n t w).1.iters[j]? = w.iters[j]? :=
@@ -265,6 +307,30 @@ example (o : Opts) (w : World (Nat → Nat)) :
   generated_model_frame funCells o 5 2 exStmts [fun t => t.toNat] _ 0 0 _ _ _ _
     (by intro u c h; have : c ≠ 2 := fun e => h _ List.mem_cons_self (by simp [e]); simp [funCells, this])
     w 7 (exStmts_targets 7 (by decide)) (by intro _ e he; simp at he; subst he; decide)
+
+/-- `generated_solve_frame`: solving periods 1 and 2 of the two-statement model (targets: cells 1, 2 and 2, 3) leaves
+    cell 7 alone, for every world, option set and accumulated result. -/
+example (o : Opts) (w : World (Nat → Nat)) :
+    funCells.get (solveList (generated (V := Nat) funCells exStmts [fun t => t.toNat]
+        (fun u t off => fun c => if c = t.toNat then u (t + off).toNat else u c) 0 0
+        (fun u t => u t.toNat) (fun _ => true) (fun a b => a == b) id) o 5 [1, 2] w [] []).1.user 7
+      = funCells.get w.user 7 := by
+  apply generated_solve_frame funCells o 5 exStmts [fun t => t.toNat] _ 0 0 _ _ _ _ [1, 2]
+  · intro p hp u c h
+    have hc : c ≠ p := fun e => h _ List.mem_cons_self (by simp [e])
+    simp [funCells, hc]
+  · intro p hp a ha
+    have hp' : p = 1 ∨ p = 2 := by simpa using hp
+    unfold exStmts at ha
+    rcases hp' with rfl | rfl <;> (cases ha with
+      | head => decide
+      | tail _ ha => cases ha with
+        | head => decide
+        | tail _ ha => cases ha)
+  · intro _ p hp e he
+    have hp' : p = 1 ∨ p = 2 := by simpa using hp
+    simp at he; subst he
+    rcases hp' with rfl | rfl <;> decide
 
 /-- A model whose evaluation pass IS `runPass` of the two generated statements, with a real offset copy. -/
 private def exIC : Interp (Nat → Nat) Nat where
